@@ -18,6 +18,8 @@
 import PS.Model.Enum.HeapSearch
 import PS.Proofs.Enum.Heapq
 import PS.Proofs.Enum.HeapSearch
+import PS.Proofs.Enum.HeapInv
+import PS.Proofs.Enum.BucketOrder
 namespace PS.C03HS
 open PS PS.G PS.HS
 
@@ -67,5 +69,59 @@ example : (1 / 2 : Rat) * (1 / 4) * (1 / 8) ≤ (1 / 2) * (1 / 2) * (1 / 8) :=
 
 /-- `Bucket(size).add_prob_uniform(p)` puts probability 1/2 of 3 buckets in the middle one -/
 example : Bucket.ofProb 3 (1 / 2) = [0, 1, 0] := by decide +kernel
+
+/-! ### heapq re-establishes its invariant (gap A) -/
+
+/-- the two orders used are strict weak orders (`<` asymmetric, `not <` transitive) -/
+theorem C03_HS_prob_weakOrder (t : Rat) : Heapq.WeakOrder (probOps t).lt := by
+  constructor
+  · intro a b h
+    simp only [probOps, decide_eq_true_eq, decide_eq_false_iff_not, Rat.not_lt] at h ⊢
+    exact Rat.le_of_lt h
+  · intro a b c h1 h2
+    simp only [probOps, decide_eq_false_iff_not, Rat.not_lt] at h1 h2 ⊢
+    exact Rat.le_trans h2 h1
+
+/-- `Bucket.__lt__` is a strict weak order on the tuples of one size (all the tuples of a run have
+    length `size`); on tuples of different lengths `not <` is not transitive: `[1]`, `[]`, `[0]` -/
+theorem C03_HS_bucket_weakOrder (n : Nat) :
+    Heapq.WeakOrder (fun a b : { b : Bucket // b.length = n } => Bucket.lt a.1 b.1) := Bucket.weakOrder n
+
+example : Bucket.lt [] [1] = false ∧ Bucket.lt [0] [] = false ∧ Bucket.lt [0] [1] = true := by decide
+
+/-- the order of heap elements (`HeapElement.__lt__` compares the priorities only) inherits it -/
+theorem C03_HS_ltE_weakOrder {π : Type} (ops : Prio π) (w : Heapq.WeakOrder ops.lt) :
+    Heapq.WeakOrder (ltE ops) :=
+  ⟨fun a b h => w.asymm a.1 b.1 h, fun a b c h1 h2 => w.ntrans a.1 b.1 c.1 h1 h2⟩
+
+/-- **`heappush` re-establishes the heap invariant** (literal port of `_siftdown`), for every order
+    whose `<` is asymmetric and whose `not <` is transitive -/
+theorem C03_HS_heappush_inv {α : Type} (lt : α → α → Bool) (w : Heapq.WeakOrder lt) (h : List α) (x : α)
+    (hh : Heapq.IsHeap lt h) : Heapq.IsHeap lt (Heapq.push lt h x) := Heapq.push_isHeap w h x hh
+
+/-- **`heappop` re-establishes the heap invariant and returns a minimum** (literal port of
+    `_siftup` = bubble the smaller child up to a leaf, then `_siftdown`) -/
+theorem C03_HS_heappop_inv {α : Type} (lt : α → α → Bool) (w : Heapq.WeakOrder lt) (h : List α) (x : α)
+    (h' : List α) (hh : Heapq.IsHeap lt h) (hp : Heapq.pop lt h = some (x, h')) :
+    Heapq.IsHeap lt h' ∧ ∀ y ∈ h, lt y x = false := Heapq.pop_isHeap w h x h' hh hp
+
+/-- **heapsort**: popping the heap built by successive pushes of `l` until it is empty yields a
+    permutation of `l` in which no element is smaller than an earlier one -/
+theorem C03_HS_heap_sorted {α : Type} (lt : α → α → Bool) (w : Heapq.WeakOrder lt) (l : List α) :
+    (Heapq.drain lt l.length (Heapq.build lt l)).Perm l ∧
+    (Heapq.drain lt l.length (Heapq.build lt l)).Pairwise (fun a b => lt b a = false) := by
+  have hp := Heapq.build_perm lt l
+  obtain ⟨h1, h2⟩ := Heapq.drain_sorted w l.length (Heapq.build lt l) (Heapq.build_isHeap w l)
+    (by rw [hp.length_eq]; exact Nat.le_refl _)
+  exact ⟨h1.trans hp, h2⟩
+
+example : Heapq.drain (fun a b : Nat => decide (a < b)) 6 (Heapq.build (fun a b => decide (a < b)) [5, 1, 4, 1, 3, 2])
+    = [1, 1, 2, 3, 4, 5] := by decide
+
+example : Heapq.WeakOrder (fun a b : Nat => decide (a < b)) :=
+  ⟨fun a b h => by simp only [decide_eq_true_eq, decide_eq_false_iff_not] at h ⊢; omega,
+   fun a b c h1 h2 => by simp only [decide_eq_false_iff_not] at h1 h2 ⊢; omega⟩
+
+example : Heapq.pop (fun a b : Nat => decide (a < b)) [1, 3, 2, 7, 4] = some (1, [2, 3, 4, 7]) := by decide
 
 end PS.C03HS
